@@ -27,10 +27,17 @@ def cap_name(q, upper_suffix=False):
     return n
 
 
+def name_doc(n, opt):
+    """spelling `ints`: a decimal numeral is written unquoted, i.e. read by YAML as an integer"""
+    if opt.get("ints") and n.isdigit() and len(n) <= 8 and (len(n) == 1 or n[0] != "0"):
+        return int(n)
+    return n
+
+
 def unparse_field(fp, opt):
     k = fp["k"]
     if k == "flit":
-        return fp["name"]
+        return name_doc(fp["name"], opt)
     if k == "for":
         return {"$or": [unparse_field(x, opt) for x in fp["kids"]]}
     if k in ("fcap", "frcap"):
@@ -48,7 +55,7 @@ def unparse_op(q, opt):
     if k in ("lit", "ocap", "rcap") and t is not None:
         raise MachineryError("the grammar has no spelling for `times` on a plain operand or capture")
     if k == "lit":
-        return q["name"]
+        return name_doc(q["name"], opt)
     if k in ("ocap", "rcap"):
         return cap_name(q, opt.get("upper_suffix", False))
     if k == "deref":
